@@ -92,6 +92,8 @@ package parser
 //@   loop 4 invariant model.packetsNonNil(v.BinModel)
 
 //@ pred lengthOK(lf *model.Field) := lf != nil ==> (fieldOK(lf) && typeis(lf.Attr, *model.LengthFieldAttribute))
+//@ pred unresolvedRef(f *model.Field) := typeis(f.Attr, *model.ObjectFieldAttribute) && !unbox(f.Attr, *model.ObjectFieldAttribute).IsIner ==> unbox(f.Attr, *model.ObjectFieldAttribute).RefPacket == nil
+
 //@ pred csText(f *model.Field) := typeis(f.Attr, *model.CheckSumFieldAttribute) ==> istokentext(unbox(f.Attr, *model.CheckSumFieldAttribute).CheckSumType)
 
 //@ pred newErrorsHaveLines(m *model.BinaryModel, n int) := len(m.SyntaxErrors) >= n && forall(i, n, len(m.SyntaxErrors), m.SyntaxErrors[i] != nil && m.SyntaxErrors[i].Line >= 1)
@@ -102,6 +104,8 @@ package parser
 //@   ensures [C12:D4-length-only-in-root] forall(i, 0, len(unbox(result, *model.Packet).Fields), typeis(unbox(result, *model.Packet).Fields[i].Attr, *model.LengthFieldAttribute) ==> unbox(result, *model.Packet).IsRoot && unbox(result, *model.Packet).Fields[i] == unbox(result, *model.Packet).LengthField)
 //@   loop 0 invariant forall(i, 0, len(fields), typeis(fields[i].Attr, *model.LengthFieldAttribute) ==> isRoot)
 //@   loop 1 invariant forall(i, 0, len(fields), typeis(fields[i].Attr, *model.LengthFieldAttribute) ==> isRoot)
+//@   loop 0 invariant forall(i, 0, len(fields), unresolvedRef(fields[i])) && forall(i, 0, len(fields), forall(j, 0, i, typeis(fields[i].Attr, *model.ObjectFieldAttribute) && typeis(fields[j].Attr, *model.ObjectFieldAttribute) ==> unbox(fields[i].Attr, *model.ObjectFieldAttribute) != unbox(fields[j].Attr, *model.ObjectFieldAttribute)))
+//@   loop 1 invariant forall(i, rangeindex + 1, len(fields), unresolvedRef(fields[i])) && forall(i, 0, len(fields), forall(j, 0, i, typeis(fields[i].Attr, *model.ObjectFieldAttribute) && typeis(fields[j].Attr, *model.ObjectFieldAttribute) ==> unbox(fields[i].Attr, *model.ObjectFieldAttribute) != unbox(fields[j].Attr, *model.ObjectFieldAttribute)))
 //@   ensures [C04:link] unbox(result, *model.Packet).LengthField != nil ==> typeis(unbox(result, *model.Packet).LengthField.Attr, *model.LengthFieldAttribute) && forall(i, 0, len(unbox(result, *model.Packet).Fields), unbox(result, *model.Packet).Fields[i].Name == unbox(unbox(result, *model.Packet).LengthField.Attr, *model.LengthFieldAttribute).TragetField.Name ==> typeis(unbox(result, *model.Packet).Fields[i].LenAttr, *model.LengthFieldAttribute))
 //@   loop 0 invariant forallkey(k, fieldMap, fieldMap[k] != nil && fieldMap[k].Name == k)
 //@   loop 0 invariant forall(i, 0, len(fields), typeis(fields[i].Attr, *model.LengthFieldAttribute) ==> fields[i] == lengthField)
@@ -120,14 +124,17 @@ package parser
 //@   loop 1 invariant newErrorsHaveLines(self.BinModel, old(len(self.BinModel.SyntaxErrors))) && forall(i, 0, old(len(self.BinModel.SyntaxErrors)), self.BinModel.SyntaxErrors[i] == old(self.BinModel.SyntaxErrors[i])) && forall(j, 0, len(fields), haskey(positions, fields[j]) && positions[fields[j]][0] >= 1)
 
 //@ func (*PacketDslVisitorImpl).VisitFieldDefinitionWithAttribute
+//@   ensures typeis(result, *model.Field) && unresolvedRef(unbox(result, *model.Field))
 //@   ensures [C06:algorithm-is-token-text] typeis(result, *model.Field) && csText(unbox(result, *model.Field))
 //@   ensures isField(result)
 //@   ensures [C12:pad-line] newErrorsHaveLines(self.BinModel, old(len(self.BinModel.SyntaxErrors))) && forall(i, 0, old(len(self.BinModel.SyntaxErrors)), self.BinModel.SyntaxErrors[i] == old(self.BinModel.SyntaxErrors[i]))
 //@   loop 0 invariant fieldOK(f)
+//@   loop 0 invariant unresolvedRef(f)
 //@   loop 0 invariant csText(f)
 //@   loop 0 invariant newErrorsHaveLines(self.BinModel, old(len(self.BinModel.SyntaxErrors))) && forall(i, 0, old(len(self.BinModel.SyntaxErrors)), self.BinModel.SyntaxErrors[i] == old(self.BinModel.SyntaxErrors[i]))
 
 //@ func (*PacketDslVisitorImpl).VisitFieldDefinition
+//@   ensures typeis(result, *model.Field) && unresolvedRef(unbox(result, *model.Field))
 //@   ensures [C06:algorithm-is-token-text] typeis(result, *model.Field) && csText(unbox(result, *model.Field))
 //@   ensures [C12:new-errors-have-lines] newErrorsHaveLines(self.BinModel, old(len(self.BinModel.SyntaxErrors))) && forall(i, 0, old(len(self.BinModel.SyntaxErrors)), self.BinModel.SyntaxErrors[i] == old(self.BinModel.SyntaxErrors[i]))
 //@   requires isnode(ctx, fieldDefinition)
@@ -135,6 +142,7 @@ package parser
 //@   decreases 2*depth(ctx) + 1
 
 //@ func (*PacketDslVisitorImpl).VisitInerObjectField
+//@   ensures typeis(result, *model.Field) && unresolvedRef(unbox(result, *model.Field))
 //@   ensures [C06:algorithm-is-token-text] typeis(result, *model.Field) && csText(unbox(result, *model.Field))
 //@   ensures [C12:new-errors-have-lines] newErrorsHaveLines(self.BinModel, old(len(self.BinModel.SyntaxErrors))) && forall(i, 0, old(len(self.BinModel.SyntaxErrors)), self.BinModel.SyntaxErrors[i] == old(self.BinModel.SyntaxErrors[i]))
 //@   ensures isField(result)
@@ -145,19 +153,23 @@ package parser
 //@   decreases 2*depth(ctx)
 
 //@ func (*PacketDslVisitorImpl).VisitLengthFieldDeclaration
+//@   ensures typeis(result, *model.Field) && unresolvedRef(unbox(result, *model.Field))
 //@   ensures [C06:algorithm-is-token-text] typeis(result, *model.Field) && csText(unbox(result, *model.Field))
 //@   ensures isField(result)
 
 //@ func (*PacketDslVisitorImpl).VisitCheckSumFieldDeclaration
+//@   ensures typeis(result, *model.Field) && unresolvedRef(unbox(result, *model.Field))
 //@   ensures [C06:algorithm-is-token-text] typeis(result, *model.Field) && csText(unbox(result, *model.Field))
 //@   ensures isField(result)
 
 //@ func (*PacketDslVisitorImpl).metaDataDeclarationToField
+//@   ensures typeis(result, *model.Field) && unresolvedRef(unbox(result, *model.Field))
 //@   ensures [C06:algorithm-is-token-text] typeis(result, *model.Field) && csText(unbox(result, *model.Field))
 //@   ensures [C12:new-errors-have-lines] newErrorsHaveLines(self.BinModel, old(len(self.BinModel.SyntaxErrors))) && forall(i, 0, old(len(self.BinModel.SyntaxErrors)), self.BinModel.SyntaxErrors[i] == old(self.BinModel.SyntaxErrors[i]))
 //@   ensures isField(result)
 
 //@ func (*PacketDslVisitorImpl).VisitMatchFieldDeclaration
+//@   ensures typeis(result, *model.Field) && unresolvedRef(unbox(result, *model.Field))
 //@   ensures [C12:D5-duplicate-key] forall(i, 0, len(unbox(unbox(result, *model.Field).Attr, *model.MatchFieldAttribute).MatchPairs), forall(j, 0, i, unbox(unbox(result, *model.Field).Attr, *model.MatchFieldAttribute).MatchPairs[i].Key == unbox(unbox(result, *model.Field).Attr, *model.MatchFieldAttribute).MatchPairs[j].Key ==> len(self.BinModel.SyntaxErrors) > old(len(self.BinModel.SyntaxErrors))))
 //@   ensures [C06:algorithm-is-token-text] typeis(result, *model.Field) && csText(unbox(result, *model.Field))
 //@   ensures [C12:new-errors-have-lines] newErrorsHaveLines(self.BinModel, old(len(self.BinModel.SyntaxErrors))) && forall(i, 0, old(len(self.BinModel.SyntaxErrors)), self.BinModel.SyntaxErrors[i] == old(self.BinModel.SyntaxErrors[i]))
